@@ -284,6 +284,10 @@ class Generator:
             if not f.has_body:
                 raise LostAnchor(f'fn {it.key} has no body')
             sig, body, impl, modpath = list(f.sig), list(f.body), f.impl, f.modpath
+            if f.outer and f.impl is None:
+                # R7: a free fn hoisted out of a method body is called unqualified from that method,
+                # so it must live where the impl blocks are emitted (crate root), not in the source module
+                modpath = ()
         elif e.kind == 'struct':
             l = self.x.structs.get(it.key.replace(' ', ''), [])
             if len(l) != 1:
@@ -318,6 +322,8 @@ class Generator:
         both(R.r11_for_underscore, log)
         if 'r12' in e.opts:
             both(R.r12_bool_or_assign, set(e.opts['r12'].split(',')), log)
+        if 'r14' in e.opts:
+            both(R.r14_digit_from_bytes, log)
         if 'rename' in e.opts:
             mp = dict(kv.split(':') for kv in e.opts['rename'].split(','))
             both(R.rename_idents, mp, log)
@@ -379,13 +385,17 @@ class Generator:
                     cpos.append(i)
                     inv_pending = False
             i += 1
-        canary = ['proof', '{', 'assert', '(', 'false', ')', ';', '}']
+        # each canary is guarded by a distinct uninterpreted boolean so that a canary that fired does not
+        # mask the later ones of the same query (Verus assumes a failed assertion afterwards; this matters
+        # for functions marked #[verifier::loop_isolation(false)], whose loop bodies share the query)
         co = []
         cset = set(cpos)
+        nc = 0
         for i, t in enumerate(out):
             co.append(t)
             if i in cset:
-                co += canary
+                co += ['proof', '{', 'if', 'bn_canary__', '(', str(nc), ')', '{', 'assert', '(', 'false', ')', ';', '}', '}']
+                nc += 1
         it.canary_full = join(co)
         it.n_canaries = len(cpos)
         if it.kind == 'const' and impl is None:
@@ -538,7 +548,8 @@ class Generator:
                             if g is not owned[0]:
                                 skip.add(id(g))
                     else:
-                        merged_stub[id(grp[0])] = merge_stub_headers([g.header_tokens for g in grp])
+                        if not (grp[0].kind == 'const' and grp[0].impl_header is None):
+                            merged_stub[id(grp[0])] = merge_stub_headers([g.header_tokens for g in grp])
                         for g in grp[1:]:
                             skip.add(id(g))
             for it in its:
@@ -561,6 +572,10 @@ class Generator:
                         emit(body, it if own else None)
                         emit('}')
                     else:
+                        if depth > 0:
+                            # a free fn that is private to its module: the generator emits impl blocks at the crate
+                            # root (not in their defining module), so such a callee must be nameable from there
+                            body = re.sub(r'^((?:#\[[^\]]*\]\s*)*)((?:const\s+|unsafe\s+)*fn\b)', r'\1pub(crate) \2', body, count=1)
                         emit(body, it if own else None)
             for k, sub in node.items():
                 if k == 'items':
@@ -571,8 +586,13 @@ class Generator:
                 emit('}')
 
         emit('#![allow(unused_imports, unused_variables, unused_mut, dead_code, non_snake_case, unused_parens, unused_braces, unused_assignments, non_upper_case_globals, unreachable_code)]')
+        # `vec![..]` expands (rustc -Zunpretty=expanded) to liballoc-internal calls `::alloc::boxed::box_assume_init_into_vec_unsafe(..)`
+        emit('#![feature(liballoc_internals)]')
+        emit('extern crate alloc;')
         emit('use vstd::prelude::*;')
         emit('verus! {')
+        if canary:
+            emit('pub uninterp spec fn bn_canary__(k: int) -> bool;')
         emit_node(tree, 0)
         emit('} // verus!')
         emit('fn main() {}')
